@@ -9,12 +9,15 @@ package dagutils
 // by spec/DagDiff/TraceDagDiff.tla.
 //
 // Projection (trusted, tiny): a flat tree is a list of [path, dataId]; dataId 0 <-> the UnixFS
-// directory payload {0x08,0x01}, dataId i>0 <-> the payload "leaf-<i>"; a CID is projected to the
+// directory payload {0x08,0x01}, dataId 100+m <-> the UnixFS directory payload with metadata
+// (mode 0700+m: {0x08,0x01,0x38,varint}), dataId 0<i<100 <-> the payload "leaf-<i>"; a CID is projected to the
 // flat subtree it was built from (table filled while building a and b); a real node is projected by
-// walking its links through the DAG service.
+// walking its links through the DAG service.  Directories of any directory id may be empty or
+// populated, at the root or nested.
 
 import (
 	"context"
+	"encoding/binary"
 	"encoding/json"
 	"fmt"
 	"sort"
@@ -112,15 +115,30 @@ func (t c14Tree) children(p string) []string {
 
 var c14DirData = []byte{0x08, 0x01} // UnixFS Data{Type: Directory}
 
+const c14DirBase = 100 // data ids >= c14DirBase: directory payloads with metadata
+
+func c14IsDir(d int) bool { return d == 0 || d >= c14DirBase }
+
 func c14Payload(d int) []byte {
 	if d == 0 {
 		return c14DirData
+	}
+	if d >= c14DirBase { // UnixFS Data{Type: Directory, mode: 0700+m}
+		return binary.AppendUvarint([]byte{0x08, 0x01, 0x38}, uint64(0o700+d-c14DirBase))
 	}
 	return []byte(fmt.Sprintf("leaf-%d", d))
 }
 func c14DataID(b []byte) int {
 	if string(b) == string(c14DirData) {
 		return 0
+	}
+	if len(b) > 3 && string(b[:3]) == "\x08\x01\x38" {
+		if m, n := binary.Uvarint(b[3:]); n == len(b)-3 && m >= 0o700 {
+			if d := c14DirBase + int(m-0o700); string(c14Payload(d)) == string(b) {
+				return d
+			}
+		}
+		return -1
 	}
 	var i int
 	if n, _ := fmt.Sscanf(string(b), "leaf-%d", &i); n == 1 && string(c14Payload(i)) == string(b) {
@@ -224,20 +242,28 @@ func (s *c14Sys) runCase(a, b c14Tree) {
 type c14Gen struct {
 	rnd interface{ Intn(int) int }
 	names []string
-	leaves, maxDepth, maxFan int
+	leaves, dirMetas, maxDepth, maxFan int
+}
+
+// own data of a directory: mostly the plain payload, sometimes one with metadata
+func (g *c14Gen) dirData() int {
+	if g.rnd.Intn(4) == 0 {
+		return c14DirBase + g.rnd.Intn(g.dirMetas)
+	}
+	return 0
 }
 
 func (g *c14Gen) subtree(t c14Tree, p string, depth int) {
 	// leaf with probability growing with depth; else directory with 0..maxFan entries
 	if depth >= g.maxDepth || g.rnd.Intn(10) < 3+2*depth {
 		if g.rnd.Intn(6) == 0 {
-			t[p] = 0 // empty directory
+			t[p] = g.dirData() // empty directory
 		} else {
 			t[p] = 1 + g.rnd.Intn(g.leaves)
 		}
 		return
 	}
-	t[p] = 0
+	t[p] = g.dirData()
 	fan := g.rnd.Intn(g.maxFan + 1)
 	for _, i := range c14Perm(g.rnd, len(g.names))[:fan] {
 		cp := g.names[i]
@@ -272,12 +298,22 @@ func (g *c14Gen) edit(t c14Tree) {
 	// pick a directory node (sorted for determinism), then a slot under it
 	var dirs []string
 	for k, d := range t {
-		if d == 0 && len(c14Split(k)) < g.maxDepth {
+		if c14IsDir(d) && len(c14Split(k)) < g.maxDepth {
 			dirs = append(dirs, k)
 		}
 	}
 	sort.Strings(dirs)
 	p := dirs[g.rnd.Intn(len(dirs))]
+	if g.rnd.Intn(5) == 0 { // change the directory's own data, keeping its entries (p may be the root)
+		d := t[p]
+		for d == t[p] {
+			if d = c14DirBase + g.rnd.Intn(g.dirMetas); g.rnd.Intn(3) == 0 {
+				d = 0
+			}
+		}
+		t[p] = d
+		return
+	}
 	name := g.names[g.rnd.Intn(len(g.names))]
 	cp := name
 	if p != "" {
@@ -320,7 +356,7 @@ func TestVerifC14(t *testing.T) {
 		}
 	}
 	rnd := vRand()
-	g := &c14Gen{rnd: rnd, names: []string{"a", "b", "c", "d", "e", "f"}, leaves: 3, maxDepth: 4, maxFan: 6}
+	g := &c14Gen{rnd: rnd, names: []string{"a", "b", "c", "d", "e", "f"}, leaves: 3, dirMetas: 2, maxDepth: 4, maxFan: 6}
 	n := vEnvInt("C14_RANDOM", 0)
 	for i := 0; i < n; i++ {
 		anc := c14Tree{"": 0}
